@@ -1,5 +1,5 @@
 """A small terminal model: reconstructs the screen from what crossterm/ratatui wrote to the pty (cursor addressing,
-erase display, printable UTF-8; colours and private modes are parsed and ignored) and snapshots it at every frame
+erase display, printable UTF-8, the foreground colour of every cell; private modes are parsed and ignored) and snapshots it at every frame
 marker `ESC ] 777 ; frame=N BEL` emitted by the guarded hook."""
 import re
 
@@ -8,22 +8,53 @@ class Screen:
     def __init__(self, rows, cols):
         self.rows, self.cols = rows, cols
         self.grid = [[" "] * cols for _ in range(rows)]
+        self.fgs = [[-1] * cols for _ in range(rows)]     # foreground colour of each cell: ANSI index, -1 = default
+        self.fg = -1
         self.r = self.c = 0
         self.snapshots = {}          # frame number -> list of strings
+        self.snapshots_fg = {}       # frame number -> list of lists of colour indices
 
     def resize(self, rows, cols):
         g = [[" "] * cols for _ in range(rows)]
+        f = [[-1] * cols for _ in range(rows)]
         for i in range(min(rows, self.rows)):
             for j in range(min(cols, self.cols)):
                 g[i][j] = self.grid[i][j]
-        self.grid, self.rows, self.cols = g, rows, cols
+                f[i][j] = self.fgs[i][j]
+        self.grid, self.fgs, self.rows, self.cols = g, f, rows, cols
         self.r = min(self.r, rows - 1)
         self.c = min(self.c, cols - 1)
 
     def put(self, ch):
         if 0 <= self.r < self.rows and 0 <= self.c < self.cols:
             self.grid[self.r][self.c] = ch
+            self.fgs[self.r][self.c] = self.fg
         self.c += 1
+
+    def sgr(self, nums):
+        """select graphic rendition: only the foreground colour is kept"""
+        if not nums:
+            nums = [0]
+        k = 0
+        while k < len(nums):
+            n = nums[k]
+            if n == 0 or n == 39:
+                self.fg = -1
+            elif 30 <= n <= 37:
+                self.fg = n - 30
+            elif 90 <= n <= 97:
+                self.fg = n - 90 + 8
+            elif n == 38 and k + 2 < len(nums) and nums[k + 1] == 5:
+                self.fg = nums[k + 2]
+                k += 2
+            elif n == 38 and k + 4 < len(nums) and nums[k + 1] == 2:
+                self.fg = 1000                       # some RGB colour
+                k += 4
+            elif n == 48 and k + 2 < len(nums) and nums[k + 1] == 5:
+                k += 2
+            elif n == 48 and k + 4 < len(nums) and nums[k + 1] == 2:
+                k += 4
+            k += 1
 
     def feed(self, data):
         text = data.decode("utf-8", "replace")
@@ -44,9 +75,12 @@ class Screen:
                         if fin == "H" or fin == "f":
                             self.r = (nums[0] if len(nums) > 0 and nums[0] else 1) - 1
                             self.c = (nums[1] if len(nums) > 1 and nums[1] else 1) - 1
+                        elif fin == "m":
+                            self.sgr(nums)
                         elif fin == "J":
                             if (nums[0] if nums else 0) in (2, 3):
                                 self.grid = [[" "] * self.cols for _ in range(self.rows)]
+                                self.fgs = [[-1] * self.cols for _ in range(self.rows)]
                         elif fin == "K":
                             for j in range(max(self.c, 0), self.cols):
                                 if 0 <= self.r < self.rows:
@@ -73,6 +107,7 @@ class Screen:
                     m = re.match(r"777;frame=(\d+)", body)
                     if m:
                         self.snapshots[int(m.group(1))] = ["".join(row) for row in self.grid]
+                        self.snapshots_fg[int(m.group(1))] = [list(row) for row in self.fgs]
                     i = j + 1
                     continue
                 i += 2
@@ -93,3 +128,9 @@ def snapshots(data, rows, cols):
     s = Screen(rows, cols)
     s.feed(bytes(data))
     return s.snapshots
+
+
+def snapshots_with_colour(data, rows, cols):
+    s = Screen(rows, cols)
+    s.feed(bytes(data))
+    return s.snapshots, s.snapshots_fg
